@@ -35,10 +35,11 @@ Theorem C15_grouping : forall t, known_K1 t = false -> known_K2 t = false ->
 Proof. exact grouping. Qed.
 Print Assumptions C15_grouping.
 
-(* rsass's operators agree with the reference on the small operand set, outside K3 / K4 *)
+(* rsass's operators agree with the reference on the small operand set, outside K4
+   (the `%` class K3 is gone since fix cc06893) *)
 Theorem C15_nodes_small : forall o a a' b b',
   In (a, a') small_pairs -> In (b, b') small_pairs -> In o strict_ops ->
-  k3_pair o a b = false -> k4_pair o a b = false ->
+  k4_pair o a b = false ->
   agree_b (spec_bin o a b) (m_bin o a' b') = true.
 Proof. exact node_small. Qed.
 Print Assumptions C15_nodes_small.
@@ -46,10 +47,10 @@ Print Assumptions C15_nodes_small.
 (* the statement as the property gives it, without exclusions *)
 Definition C15_statement : Prop := full_statement.
 
-(* main theorem: outside the four recorded classes, any tree whose subtrees have small
+(* main theorem: outside the three recorded classes, any tree whose subtrees have small
    reference values evaluates as the Sass grammar prescribes *)
 Theorem C15_main : forall t,
-  known_K1 t = false -> known_K2 t = false -> known_K3 t = false -> known_K4 t = false ->
+  known_K1 t = false -> known_K2 t = false -> known_K4 t = false ->
   all_small t = true ->
   agree_b (eval_spec t) (model_value t) = true.
 Proof. exact main. Qed.
@@ -62,9 +63,11 @@ Print Assumptions C15_refuted_and_or.
 Theorem C15_refuted_eq_rel : exists t, known_K2 t = true /\ agree_b (eval_spec t) (model_value t) = false.
 Proof. exact refuted_eq_rel. Qed.
 Print Assumptions C15_refuted_eq_rel.
-Theorem C15_refuted_mod : exists t, known_K3 t = true /\ agree_b (eval_spec t) (model_value t) = false.
-Proof. exact refuted_mod. Qed.
-Print Assumptions C15_refuted_mod.
+(* `-2 % 2` now is 0 as in Sass (fixed finding F30) *)
+Theorem C15_mod_fixed :
+  agree_b (eval_spec (TBin BMod (TNeg (TNum 2)) (TNum 2))) (model_value (TBin BMod (TNeg (TNum 2)) (TNum 2))) = true.
+Proof. exact mod_fixed. Qed.
+Print Assumptions C15_mod_fixed.
 Theorem C15_refuted_rel_bool : exists t, known_K4 t = true /\ agree_b (eval_spec t) (model_value t) = false.
 Proof. exact refuted_rel_bool. Qed.
 Print Assumptions C15_refuted_rel_bool.
@@ -83,6 +86,6 @@ Print Assumptions C15_small_trees.
 (* non-vacuity: a tree with three levels of precedence meeting every hypothesis of C15_main *)
 Example C15_nonvacuous :
   let t := TBin BOr (TBin BLt (TBin BPlus (TNum 1) (TBin BMul (TNum 2) (TNeg (TNum 2)))) (TNum 2))
-                    (TBin BAnd (TNot (TBool false)) (TBin BEq (TBin BMod (TNum 2) (TNum 3)) (TNum 0))) in
-  known_K1 t = false /\ known_K2 t = false /\ known_K3 t = false /\ known_K4 t = false /\ all_small t = true.
+                    (TBin BAnd (TNot (TBool false)) (TBin BEq (TBin BMod (TNum 2) (TNeg (TNum 1))) (TNum 0))) in
+  known_K1 t = false /\ known_K2 t = false /\ known_K4 t = false /\ all_small t = true.
 Proof. vm_compute. auto. Qed.
